@@ -27,6 +27,7 @@ type mix struct {
 	Batches []int `json:"batches"` // sizes of consecutive Append calls (ascending heights)
 	Restart bool  `json:"restart"` // restart after populating (flushes everything)
 	Par     int   `json:"par"`     // >0: parallel-delete threshold override
+	Reader  bool  `json:"reader"`  // an OnDelete handler reads the header being deleted (by height and by hash)
 }
 
 func (m mix) n() int {
@@ -73,6 +74,15 @@ func (e *env) populate(m mix) bool {
 			c.Violation("sync-fails", fmt.Sprint(err), nil)
 			return false
 		}
+	}
+	if m.Reader {
+		e.st.OnDelete(func(ctx context.Context, h uint64) error {
+			if g, err := e.st.GetByHeight(ctx, h); err == nil {
+				_, _ = e.st.Get(ctx, g.Hash())
+				_, _ = e.st.Has(ctx, g.Hash())
+			}
+			return nil
+		})
 	}
 	if m.Restart {
 		if err := e.stop(); err != nil {
@@ -248,6 +258,8 @@ func storeMixes(r *mon.Run) []mix {
 	add := func(m mix) { out = append(out, m) }
 	add(mix{Cfg: Cfg{SC: 64, IC: 64, WB: 8, Flavour: "plain"}, T0: 1, Batches: []int{8, 3}, Par: 4})
 	add(mix{Cfg: Cfg{SC: 64, IC: 64, WB: 8, Flavour: "ctx"}, T0: 2, Batches: []int{8, 3}, Par: 4})
+	add(mix{Cfg: Cfg{SC: 64, IC: 64, WB: 4, Flavour: "plain"}, T0: 2, Batches: []int{6, 2}, Reader: true})
+	add(mix{Cfg: Cfg{SC: 8, IC: 8, WB: 1, Flavour: "ctx"}, T0: 1, Batches: []int{7}, Reader: true})
 	for _, fl := range []string{"plain", "ctx"} {
 		add(mix{Cfg: Cfg{SC: 8, IC: 8, WB: 1, Flavour: fl}, T0: 3, Batches: []int{6}})                   // all flushed
 		add(mix{Cfg: Cfg{SC: 512, IC: 512, WB: 64, Flavour: fl}, T0: 3, Batches: []int{8}})              // nothing flushed
@@ -283,7 +295,7 @@ func TestC08(t *testing.T) {
 		if T > 2 {
 			lo = T - 2
 		}
-		exhaustive := mi < 10
+		exhaustive := mi < 12
 		for from := lo; from <= H+3; from++ {
 			for to := lo; to <= H+3; to++ {
 				if !exhaustive && rng.Intn(6) != 0 {
@@ -373,7 +385,7 @@ func c08Pair(c *mon.Case, p c08P) {
 		cancel()
 		synctest.Wait()
 		c.Count("delete_calls", 1)
-		c.Class("%s flavour=%s wb=%d restart=%v par=%d %s err=%v", class, p.Mix.Cfg.Flavour, p.Mix.Cfg.WB, p.Mix.Restart, p.Mix.Par, touchesUnfl, err != nil)
+		c.Class("%s flavour=%s wb=%d restart=%v par=%d reader=%v %s err=%v", class, p.Mix.Cfg.Flavour, p.Mix.Cfg.WB, p.Mix.Restart, p.Mix.Par, p.Mix.Reader, touchesUnfl, err != nil)
 		if !valid {
 			if err == nil {
 				c.Violation("invalid-range-accepted/"+class, fmt.Sprintf("DeleteRange(%d,%d) with Tail %d Head %d returned nil", p.From, p.To, T, H), nil)
